@@ -812,6 +812,26 @@ static ares_status_t process_answer(ares_channel_t      *channel,
   /* Parse the response */
   status = ares_dns_parse(abuf, alen, 0, &rdnsrec);
   if (status != ARES_SUCCESS) {
+    /* A truncated UDP response may really be cut short, in the middle of a
+     * record, and then does not parse.  It carries no data we would use
+     * anyway: all it has to tell is "ask again over TCP", and the header says
+     * that.  Handle it like any other truncated response instead of tearing
+     * the connection down and asking over UDP again. */
+    if (!(conn->flags & ARES_CONN_FLAG_TCP) &&
+        !(channel->flags & ARES_FLAG_IGNTC) && alen >= 12 &&
+        (abuf[2] & 0x80) /* QR */ && (abuf[2] & 0x02) /* TC */) {
+      query = ares_htable_szvp_get_direct(
+        channel->queries_by_qid, (unsigned short)((abuf[0] << 8) | abuf[1]));
+      if (query != NULL && query->conn == conn) {
+        ares_llist_node_destroy(query->node_queries_to_conn);
+        query->node_queries_to_conn = NULL;
+        query->using_tcp            = ARES_TRUE;
+        status                      = ares_append_requeue(
+          requeue, query, query->no_retries ? server : NULL);
+        goto cleanup;
+      }
+    }
+
     /* Malformations are never accepted */
     status = ARES_EBADRESP;
     goto cleanup;
